@@ -223,9 +223,13 @@ def run(job: dict) -> dict:
         result['windows'] = windows
     try:
         if job['action'] in ('train', 'apply', 'perftrack'):
-            runner = daskrunner.Runner(instance, feed, SymSink(sinkfile), scheduler=job.get('scheduler', 'synchronous'))
-            with runner:
-                getattr(runner, {'train': 'train', 'apply': 'apply', 'perftrack': 'eval_perftrack'}[job['action']])()
+            for again in range(job.get('repeat') or 1):  # a long history in one go: every run re-resolves "the latest" afresh
+                if again:
+                    projgen.clear_caches()
+                    instance = asset.Instance(job['project'], job['release'], job.get('generation'), projgen.directory(job['registry']))
+                runner = daskrunner.Runner(instance, feed, SymSink(sinkfile), scheduler=job.get('scheduler', 'synchronous'))
+                with runner:
+                    getattr(runner, {'train': 'train', 'apply': 'apply', 'perftrack': 'eval_perftrack'}[job['action']])()
         elif job['action'] == 'serve':
             runner = pyfunc.Runner(instance, feed, None)
             outs = []
